@@ -616,6 +616,38 @@ func (c *VCtx) translateCall(sc *Scope, x *ECall) Val {
 	case "calls":
 		h := c.heap(st, "G:calls", ArrSort(SRef, SInt))
 		return Select(h, arg(0))
+	case "selects":
+		// selects(ch): the select statement at this assertion point has a receive case on ch
+		var alts []*Term
+		for _, ch := range c.curSelectChans {
+			alts = append(alts, Eq(ch, arg(0)))
+		}
+		return Or(alts...)
+	case "now":
+		return c.now(st)
+	case "calltime":
+		h := c.heap(st, "G:calltime", ArrSort(SRef, SInt))
+		return Select(h, arg(0))
+	case "lastret":
+		// lastret(f, i): i-th result of the most recent call of the opaque function value f
+		f := arg(0)
+		iv, ok := x.Args[1].(*EInt)
+		if !ok {
+			unsup("lastret needs a literal index")
+		}
+		var rs Sort = SRef
+		if f.GT != nil {
+			if sig, ok := f.GT.Underlying().(*types.Signature); ok {
+				var k int
+				fmt.Sscanf(iv.V, "%d", &k)
+				if k < sig.Results().Len() {
+					rs = sortOf(sig.Results().At(k).Type())
+				}
+			}
+		}
+		hn := fmt.Sprintf("G:lastret:%s:%s", iv.V, rs)
+		h := c.heap(st, hn, ArrSort(SRef, rs))
+		return Select(h, f)
 	case "spawned":
 		// spawned(f): number of goroutines started with function f (by contract key)
 		id, ok := x.Args[0].(*EIdent)
@@ -623,7 +655,7 @@ func (c *VCtx) translateCall(sc *Scope, x *ECall) Val {
 			unsup("spawned needs a function name")
 		}
 		h := c.heap(st, "G:calls", ArrSort(SRef, SInt))
-		return Select(h, c.declare("fnid!"+id.Name, SRef))
+		return Select(h, c.fnID(id.Name))
 	case "datalen":
 		return c.dataLen(arg(0))
 	case "cancelOf":
